@@ -12,6 +12,12 @@ ROOT = os.path.dirname(os.path.dirname(os.path.abspath(__file__)))
 def main():
     props = [json.loads(l) for l in open(os.path.join(ROOT, "properties.jsonl"))]
     meta = json.load(open(os.path.join(ROOT, "vt", "manifest_meta.json")))
+    md = os.path.join(ROOT, "vt", "meta.d")
+    if os.path.isdir(md):
+        for fn in sorted(os.listdir(md)):
+            if fn.endswith(".json"):
+                for k, v in json.load(open(os.path.join(md, fn))).items():
+                    meta["checks"].setdefault(k, v)
     checks, na = [], []
     for p in props:
         pid = p["id"]
